@@ -165,6 +165,17 @@ CHECKS["C12"] = ("DESIGN.md C12",
     "program in fresh processes under up to 32 PYTHONHASHSEEDs until two outputs differ. The model "
     "(any order) over-approximates CPython's actual orders.")
 
+CHECKS["C10"] = ("DESIGN.md C10",
+    "Histories of 3 (thorough 4) commands over a 24-command alphabet (define, assign, read, call, "
+    "failing expressions, syntax errors, require of good/missing/broken/syntactically broken/circular/"
+    "nested-failing user modules on a real scratch module path, loop aborted by an error), every "
+    "command chosen by a symbolic selector, issued to one or two interleaved fresh Interpreter "
+    "instances; each call's result or error is compared with a reference session model, failed "
+    "commands are repeated and must fail identically, the module load stack must be empty between "
+    "calls. Plus the one-step check per require outcome (stack restored, module cached iff its body "
+    "completed). This is a finite enumeration driven by the solver; the inductive step for the module "
+    "stack is what extends to histories of any length.")
+
 NA = {}
 
 
